@@ -18,7 +18,7 @@ import (
 // model of the resumption policy (DESIGN.md Appendix D).
 
 var resFaults = []string{"rotate-keep-old", "rotate-drop-old", "rotate-retire-old-only", "rotate-readmit-retired", "rotate-old-key-primary-again", "restart-keep-key", "restart-lose-key", "change-suites", "change-client-auth", "disable-tickets", "enable-tickets", "evict-by-other-name", "other-server-shared-key", "other-server-own-key",
-	"change-max-version", "clone-config", "ticket-byte-flip", "ticket-truncated", "ticket-extended", "ticket-suite-not-offered", "ticket-genuine-via-reference-client", "clock-jump", "connection-damaged-after-ticket", "change-client-cas"}
+	"change-max-version", "clone-config", "ticket-byte-flip", "ticket-truncated", "ticket-extended", "ticket-suite-not-offered", "ticket-genuine-via-reference-client", "clock-jump", "connection-damaged-after-ticket", "change-client-cas", "library-default-ticket-key"}
 var resReach = []string{"resumed", "full-handshake", "resumed-with-old-key-ticket-refreshed", "fallback-after-rotation", "fallback-suite-change", "fallback-client-auth", "fallback-tickets-off", "fallback-evicted", "fallback-forged-ticket", "completeness-checked", "soundness-checked", "master-equal-checked", "wire-decoded-resumed", "gm-mode", "tls-mode", "client-cert-in-ticket", "history>=4", "refclient-tls12", "wire-decoded-resumed-tls12", "policy-forbids-failed", "ticket-seen-in-failed-handshake", "per-connection-config"}
 
 func init() {
@@ -38,6 +38,7 @@ type resSrv struct {
 	otherCAs   bool   // ClientCAs switched to a root that did not issue the client's certificate
 	ent        *simkit.Stream
 	keylog     *bytes.Buffer
+	lib        bool // no ticket key configured: the library draws one (a new one for every Config built)
 }
 
 type issuedTicket struct {
@@ -120,6 +121,11 @@ func runResumption(c *simkit.Choice, r *simkit.Rec) {
 	// Config through GetConfigForClient (no ticket keys of its own: "the session
 	// ticket keys of the original Config are used", rotations included)
 	perConn := c.Bool(1, 4, simkit.LScen)
+	// libKeys: the servers configure no ticket key at all (until their first rotation)
+	libKeys := !sharedKey && c.Bool(1, 4, simkit.LScen)
+	if libKeys {
+		r.Fault(idx(resFaults, "library-default-ticket-key"))
+	}
 	var mkCfg func(sv *resSrv)
 	build := func(sv *resSrv) *gmtls.Config {
 		cfg := &gmtls.Config{Rand: sv.ent, Time: simTime(s, 0), KeyLogWriter: sv.keylog, ClientAuth: sv.policy, ClientCAs: pki.Pool("caA"), SessionTicketsDisabled: sv.ticketsOff}
@@ -154,6 +160,15 @@ func runResumption(c *simkit.Choice, r *simkit.Rec) {
 			cfg.GetConfigForClient = func(*gmtls.ClientHelloInfo) (*gmtls.Config, error) { return build(sv), nil }
 			r.Reach(idx(resReach, "per-connection-config"))
 		}
+		if sv.lib {
+			// the key is left to the library: every Config built draws its own, which no
+			// other Config (and no earlier incarnation of this one) shares
+			sv.retired = append(sv.retired, sv.keys...)
+			sv.keys = []int{nextGen}
+			nextGen++
+			sv.cfg = cfg
+			return
+		}
 		kb := keyBytes(seed, sv.keys[0])
 		cfg.SessionTicketKey = kb
 		if len(sv.keys) > 1 {
@@ -166,10 +181,11 @@ func runResumption(c *simkit.Choice, r *simkit.Rec) {
 		sv.cfg = cfg
 	}
 	newSrv := func(name string, gen int) *resSrv {
-		sv := &resSrv{name: name, keys: []int{gen}, ent: simkit.NewStream(seed + uint64(len(name))*77 + uint64(name[0])), keylog: &bytes.Buffer{}}
+		sv := &resSrv{name: name, keys: []int{gen}, ent: simkit.NewStream(seed + uint64(len(name))*77 + 2*uint64(name[0])), keylog: &bytes.Buffer{}}
 		if explicit {
 			sv.suites = append([]uint16(nil), allSuites...)
 		}
+		sv.lib = libKeys
 		if clientHasCert {
 			sv.policy = gmtls.ClientAuthType(initPolicy)
 		} else {
@@ -746,6 +762,10 @@ func runResumption(c *simkit.Choice, r *simkit.Rec) {
 				}
 				if mode == 4 && len(sv.keys) < 2 {
 					mode = 1
+				}
+				if sv.lib {
+					mode = 1 // (the library's own key is not known to the application: it cannot be kept in the new list)
+					sv.lib = false
 				}
 				before := append([]int(nil), sv.keys...)
 				switch mode {
